@@ -383,6 +383,9 @@ func variants(r *vk.Run, depth int) []variant {
 }
 
 func tplNames(r *vk.Run) []string {
+	if e := os.Getenv("C01_TPLS"); e != "" { // experiments with deliberate changes only
+		return strings.Split(e, ",")
+	}
 	thorough := r != nil && r.Thorough()
 	q := []string{"empty", "vote1", "vote2+transfer", "neo-transfer", "policy-fee+tx", "u-storage2", "fault-between", "caught-callee", "destroy-ub", "unregister1"}
 	if thorough {
